@@ -11,9 +11,6 @@ import PilotaModel.TGen.ProjectK
     references (typedef links and value levels); every element of a container is checked with the same `f`.
   * `restrict keep d` — the reader's document: `d` with the struct fields and union variants for which `keep name field`
     is false removed ("a reader that lacks some fields", "new union variants").
-  * `shuf d keep f ty w` — what the reader's decode-then-re-encode does to a typed value: at every struct level
-    the fields the reader knows stay in declaration order and the fields it lacks follow them, in wire order,
-    untouched.
 -/
 namespace Pilota.TGen
 open Pilota Pilota.Thrift
@@ -98,38 +95,6 @@ def restrictDef (keep : String → Field → Bool) (n : String) : Def → Def
   | x => x
 
 def restrict (keep : String → Field → Bool) : Doc := d.map (fun p => (p.1, restrictDef keep p.1 p.2))
-
-/-! ### decode-then-re-encode by the reader, on typed values -/
-
-/-- kept fields (values passed through `g`) and the others, walking declaration and wire together -/
-def shufFields (g : STy → TVal → TVal) (keep : Field → Bool) : List Field → TFields → List (Int × TVal) × List (Int × TVal)
-  | [], _ => ([], [])
-  | _ :: _, .nil => ([], [])
-  | fl :: fs, .cons id v r =>
-    if fl.id == id then
-      let ku := shufFields g keep fs r
-      if keep fl then ((id, g fl.ty v) :: ku.1, ku.2) else (ku.1, (id, v) :: ku.2)
-    else shufFields g keep fs (.cons id v r)
-
-def shuf (keep : String → Field → Bool) : Nat → STy → TVal → TVal
-  | 0, _, w => w
-  | f+1, .list e, .list t xs => .list t (mapV (shuf keep f e) xs)
-  | f+1, .set e, .set t xs => .set t (mapV (shuf keep f e) xs)
-  | f+1, .map k v, .map kt vt kvs => .map kt vt (mapP (shuf keep f k) (shuf keep f v) kvs)
-  | f+1, .ref n, w => match d.find n with
-    | some (.struct fs) => match w with
-      | .struct wfs =>
-        let ku := shufFields (shuf keep f) (keep n) fs wfs
-        .struct (TFields.ofList (ku.1 ++ ku.2))
-      | w => w
-    | some (.union vs) => match w with
-      | .struct (.cons id v .nil) => match vs.find? (fun x => x.1 == id && !(x.2 == .void)) with
-        | some (_, ty) => .struct (.cons id (shuf keep f ty v) .nil)
-        | none => w
-      | w => w
-    | some (.typedef t) => shuf keep f t w
-    | _ => w
-  | _+1, _, w => w
 
 end
 
